@@ -19,6 +19,14 @@ type RoundCfg struct {
 	ForkerAny  bool // allow any validator to be the forker (C03/C05: also >= 1/3)
 	DevRounds  int  // deviations only in rounds < DevRounds (0 = any round)
 	ForkRounds int  // fork slots only in rounds < ForkRounds (0 = any round)
+	// Sequential: the base DAG is "sequential gossip": every event takes the LATEST event of every other
+	// validator (also the ones emitted earlier in the same round) instead of the previous round's tips.
+	Sequential bool
+	// RequireLag: only deviation sets that contain a lag are emitted; DropOnly: the non-lag deviations are
+	// restricted to "drop the parent of one other validator" (vote-splitting patterns around a lagging validator)
+	RequireLag bool
+	DropOnly   bool
+	LagRounds  int // lags start only in rounds < LagRounds (0 = any)
 }
 
 type slotDev struct {
@@ -90,8 +98,11 @@ func BuildRounds(cfg RoundCfg, devs []slotDev, forkSlot int, forkVariant int) *l
 					continue
 				}
 				p := prevTip[u]
-				if opt == n && u < v && tip[u] >= 0 {
+				if (opt == n || cfg.Sequential) && u < v && tip[u] >= 0 {
 					p = tip[u]
+				}
+				if cfg.Sequential && opt == n {
+					p = prevTip[u] // in sequential mode this option means the opposite: previous round's tips only
 				}
 				// validators selected by forkVariant build on the fork branch in the round after the fork
 				if u == forkBy && forkEv >= 0 && r == forkRound+1 && forkVariant&(1<<uint(v)) != 0 {
@@ -143,6 +154,15 @@ func GenRounds(cfg RoundCfg, mine func(i int) bool, visit func(d *lref.DAG, desc
 	total := 0
 	idx := 0
 	emit := func(devs []slotDev) {
+		if cfg.RequireLag {
+			has := false
+			for _, d := range devs {
+				has = has || d.opt >= 100
+			}
+			if !has {
+				return
+			}
+		}
 		forks := []int{-1}
 		if cfg.Fork {
 			for s := 0; s < cfg.R*n; s++ {
@@ -202,6 +222,12 @@ func GenRounds(cfg RoundCfg, mine func(i int) bool, visit func(d *lref.DAG, desc
 		}
 		for s := start; s < lim; s++ {
 			for _, o := range opts {
+				if o >= 100 && cfg.LagRounds > 0 && s/n >= cfg.LagRounds {
+					continue
+				}
+				if o < 100 && cfg.DropOnly && o >= n {
+					continue
+				}
 				rec(s+1, append(append([]slotDev{}, cur...), slotDev{s / n, s % n, o}))
 			}
 		}
